@@ -69,6 +69,14 @@ Failed(r) ==
            IN c[2] = 0 \/ Close(e.k, G, c[1], c[2], Tol)
       THEN {} ELSE {"conditional_update_is_conditional_probability"})
 
-Judged == i = 0 \/ Report(Recs[i].id, Failed(Recs[i]))
+\* records with a field `forked`: the error sequences (one number per trial) drawn by
+\* simulations that were built WITHOUT a generator in worker processes forked from one
+\* parent - "drawn independently": no two workers replay the same sequence
+FailedForked(r) ==
+  IF \A a \in DOMAIN r.forked : \A b \in DOMAIN r.forked : a # b => r.forked[a] # r.forked[b]
+  THEN {} ELSE {"workers_forked_from_one_process_draw_the_same_errors"}
+IsForked(r) == "forked" \in DOMAIN r
+
+Judged == i = 0 \/ Report(Recs[i].id, IF IsForked(Recs[i]) THEN FailedForked(Recs[i]) ELSE Failed(Recs[i]))
 Post == PrintT(<<"CHECKED", TLCGet("distinct") - 1>>)
 =============================================================================
